@@ -85,6 +85,16 @@ func (env *Env) callExpr(c *ast.CallExpr) Value {
 		m, k := arg(0), arg(1)
 		_, present := env.s.mapLookup(env.hp, m, k.S)
 		return Value{T: tBool, S: present}
+	case "addr": // addr(x): the address of a local variable that lives in memory (&x in the code)
+		id, isID := c.Args[0].(*ast.Ident)
+		if !isID {
+			env.fail("addr() takes the name of a local variable")
+		}
+		p, ok := env.cells[id.Name]
+		if !ok {
+			env.fail("addr(%s): not a variable living in memory at this point", id.Name)
+		}
+		return p
 	case "isnil":
 		return Value{T: tBool, S: nilTest(arg(0))}
 	case "nonnil":
@@ -406,6 +416,10 @@ func (x *Exec) bindLocals(env *Env, s *State, li *loopInfo) {
 		v := nb.v
 		if nb.cell {
 			v = x.cellValue(s, nb.v)
+			if env.cells == nil {
+				env.cells = map[string]Value{}
+			}
+			env.cells[n] = nb.v
 		}
 		if _, taken := env.vars[n]; taken {
 			if _, isParam := x.params[n]; !isParam {
